@@ -33,6 +33,10 @@ type RawPeer struct {
 	// ParseErr is set when the library emitted bytes that do not parse.
 	ParseErr error
 	Partial  *wsref.Frame // incomplete trailing frame at EOF, if any
+	// Hold, if set, makes the peer stop reading while it returns true (a
+	// peer that does not drain its receive buffer). Evaluated with the
+	// simulator lock held.
+	Hold func() bool
 }
 
 // NewRawPeer wraps the raw end of a lib-vs-raw connection.
@@ -103,6 +107,9 @@ func (p *RawPeer) parse() {
 func (p *RawPeer) readMore() bool {
 	if p.EOF || p.Err != nil {
 		return false
+	}
+	if p.Hold != nil {
+		p.r.S.ParkE(p.Name+".hold", func() bool { return !p.Hold() }, nil)
 	}
 	buf := make([]byte, 1<<16)
 	n, err := p.E.Read(buf)
